@@ -23,7 +23,7 @@ from ..gen import hostile as G
 
 PID = "C11"
 
-_MANIFEST_PENDING = {
+MANIFEST = {
     "category": "other",
     "technique": "Coq proof of the elaboration-limit bookkeeping + end-to-end crash search on the real analyzer/emitter/formatter",
     "text": "Proved on a Gallina transcription of InstanceHistory::{push,pop,set,get} and get_component: push succeeds only within "
@@ -39,11 +39,15 @@ _MANIFEST_PENDING = {
             "programs without analysis errors (what `veryl build` does).",
 }
 
-STACK = 8 << 20
+STACK = 8 << 20          # release: the stack the `veryl` CLI really has (main thread, default ulimit -s)
+STACK_DEBUG = 64 << 20   # debug frames are several times larger; the unoptimised build is run for its overflow
+                         # checks, not for its stack use, so it gets a stack that only unbounded recursion exhausts
 
 
-def run_cases(binary, wires, timeout_ms, nshards=None):
-    args = ["analyze", "--timeout-ms", str(timeout_ms), "--mem-kb", str(6 * 1024 * 1024), "--stack", str(STACK)]
+def run_cases(binary, wires, timeout_ms, nshards=None, stack=STACK):
+    args = ["analyze", "--timeout-ms", str(timeout_ms), "--mem-kb", str(6 * 1024 * 1024), "--stack", str(stack)]
+    if nshards is None:
+        nshards = min(4 * C.NCPU, max(1, len(wires) // 20))      # small shards: no shard outlives run_lines' limit
     return C.run_lines(binary, wires, args=args, timeout=3400, nshards=nshards)
 
 
@@ -82,6 +86,9 @@ def norm_loc(loc):
     for root in (C.REPO, "/repo"):
         if path.startswith(root + "/"):
             return path[len(root) + 1:], line, os.path.join(C.REPO, path[len(root) + 1:])
+    mc = re.search(r"/(crates/.*)$", path)
+    if mc and "/registry/" not in path and os.path.exists(os.path.join(C.REPO, mc.group(1))):
+        return mc.group(1), line, os.path.join(C.REPO, mc.group(1))
     m2 = re.search(r"/registry/src/[^/]+/(.*)$", path)
     if m2:
         return "registry:" + m2.group(1), line, absf
@@ -121,6 +128,8 @@ def parse_result(line):
         return r
     if t[0] in ("CRASH", "TIMEOUT", "SKIP"):
         r["status"] = t[0]
+        if t[0] == "CRASH" and "rc=124" in line:
+            r["status"] = "TIMEOUT"      # C.run_lines' own one-at-a-time fallback timed out (machine load), not a death
         return r
     if t[0] == "OK":
         if len(t) > 1 and t[1] == "unparseable":
@@ -155,10 +164,10 @@ def judge(tag, r):
     return [("harness-protocol", "unrecognised harness output: " + r["raw"][:120], {})]
 
 
-def shrink_files(binary, files, key, tag, timeout_ms, budget=70):
+def shrink_files(binary, files, key, tag, timeout_ms, budget=70, stack=STACK):
     """line-level then token-level delta debugging on the file texts, keeping the violation key"""
     def fails(fs):
-        out = run_cases(binary, [G.P(fs)], timeout_ms, nshards=1)
+        out = run_cases(binary, [G.P(fs)], timeout_ms, nshards=1, stack=stack)
         r = parse_result(out[0]) if out else {"status": "?", "raw": ""}
         return any(k == key for k, _, _ in judge(tag, r))
     cur = list(files)
@@ -239,6 +248,7 @@ def run(tier, seed, replay):
         "model coq/Robust/ElabModel.v: InstanceHistory (conv/instance.rs) and get_component (conv/utils.rs) bookkeeping; signatures abstracted to numbers, body conversion to {NoDef, Def children, Fails children}",
         "vh-robust harness: supervisor + worker child, 8 MiB thread per program, catch_unwind, panic hook (first panic location), per-case timeout, ulimit -v 6 GiB",
         "NOT modelled (searched only): everything else in analyzer / emitter / formatter"])
+    res.coverage["explanation"] = "partial proof + search: Coq theorems about the elaboration-limit bookkeeping (InstanceHistory push/pop/set/get and get_component: nesting bounded by instance_depth_limit for every design whose pushed body conversions do not fail; refuted on the model otherwise); absence of panics / crashes / hangs in analysis, diagnostics, emission and formatting is searched end to end on the real code over repository testcases, hand-shaped hostile programs and parse-preserving mutants, debug and release, with catch_unwind, timeouts and a memory limit"
     res.assumptions = [
         "elaboration-depth theorem assumes no pushed body conversion fails (no_fails); the statement without it is refuted on the model (C11_unbalanced_pop_refuted)",
         "emitter is run only when analysis reports no error (as `veryl build`); formatter on every parseable text (as `veryl fmt` / LS)",
@@ -256,13 +266,13 @@ def run(tier, seed, replay):
         res.violation("harness-build", "the robustness harness (release) no longer builds: " + log2[-300:], {"log": log2[-2000:]}, no_input=True)
         return res.finish()
     bins = {"debug": dbg, "release": rel}
-    tmo = {"debug": 60000, "release": 25000}
+    tmo = {"debug": 30000, "release": 25000}
 
     if replay:
         rp = json.load(open(replay))
         files = rp["files"]
         prof = rp.get("profile", "debug")
-        out = run_cases(bins[prof], [G.P(files)], tmo[prof], nshards=1)
+        out = run_cases(bins[prof], [G.P(files)], 6 * tmo[prof], nshards=1, stack=STACK if prof == "release" else STACK_DEBUG)
         print("replay:", out[0][:300])
         for k, w, det in judge(rp.get("class", "replay"), parse_result(out[0])):
             res.violation(k, w, {"files": files, "profile": prof, **det})
@@ -272,9 +282,24 @@ def run(tier, seed, replay):
     rng = random.Random(seed * 130003 + 11)
     cases = gen_cases(rng, tier)
     wires = [G.P(fs) for (_, fs) in cases]
+    stacks = {"release": STACK, "debug": STACK_DEBUG}
     outs = {}
+    slow = 0
     for prof in ("release", "debug"):
-        outs[prof] = run_cases(bins[prof], wires, tmo[prof])
+        outs[prof] = run_cases(bins[prof], wires, tmo[prof], stack=stacks[prof])
+        if prof != "release":
+            continue          # stack use and running time are judged on the optimised build only
+        for i, o in enumerate(outs[prof]):
+            if parse_result(o)["status"] == "TIMEOUT":
+                keys = [k for k, _, _ in judge(cases[i][0], parse_result(o))]
+                if keys and all(k in res.known for k in keys):
+                    continue  # a listed hang: no need to wait for it again
+                # a timeout under machine load is not a hang: confirm alone with 6x the time
+                again = run_cases(bins[prof], [wires[i]], 6 * tmo[prof], nshards=1, stack=stacks[prof])
+                if again and parse_result(again[0])["status"] != "TIMEOUT":
+                    outs[prof][i] = again[0]
+                    slow += 1
+    res.coverage["slow_cases_confirmed_not_hanging"] = slow
     found = {}
     parsed = 0
     distinct = set()
@@ -294,6 +319,10 @@ def run(tier, seed, replay):
                     res.count("programs_reporting_ExceedLimit")
                 distinct.add(hashlib.sha256("\0".join(fs).encode()).hexdigest()[:16])
             for k, w, det in judge(tag, r):
+                if prof == "debug" and not k.startswith("panic:"):
+                    # the unoptimised build is run for its overflow checks; its stack use / speed is not the product's
+                    res.hist("debug_only_observations", k.split(":")[0])
+                    continue
                 if k not in found:
                     found[k] = (tag, fs, prof, w, det)
         if any_parsed:
@@ -318,7 +347,7 @@ def run(tier, seed, replay):
             res.violation(k, w, rp)
             continue
         try:
-            fs2 = shrink_files(bins[prof], fs, k, tag, tmo[prof]) if sum(len(f) for f in fs) < 60000 else fs
+            fs2 = shrink_files(bins[prof], fs, k, tag, tmo[prof], stack=stacks[prof]) if sum(len(f) for f in fs) < 60000 and not k.startswith("hang") else fs
         except Exception as e:   # shrinking is best effort
             fs2 = fs
             rp["shrink_error"] = str(e)[:200]
